@@ -55,6 +55,8 @@ TQuery ==
           /\ \A k \in DOMAIN Ev.res : Ev.res[k] \in 1..Ev.len
           /\ \A k \in 1..(Len(Ev.res) - 1) : Ev.res[k] < Ev.res[k + 1])
     /\ C("utilities-one-per-candidate", Ev.nutil = Ev.len)
+    \* (strategies that decide with one manager call: the manager, asked about the RETURNED utilities, decides alike)
+    /\ C("returned-utilities-explain-the-decision", "mres" \in DOMAIN Ev => Ev.mres = Ev.res)
     \* Ev.digr: digest of the state after the call restricted to the attributes that existed before it
     \* (an attribute created lazily with its initial value is not a change; a vanished one is)
     /\ C("query-leaves-state-unchanged", dig = 0 \/ Ev.digr = dig)
